@@ -106,8 +106,8 @@ prop("C18", claimed=True, level="model_checking", engine="E-SEQ (explicit-state 
 
 prop("C11", claimed=True, level="fault_enumeration", engine="E-FAULT (SimDirectory, isolated workers)",
      technique="exhaustive fault enumeration: every storage operation of each workload's fault-free log fails once and permanently, under every continuation policy, on the real writer / reader over the simulated directory",
-     text="For each workload (quick: add + commit, add + delete + commit; thorough: + merge + GC, reader reloads, rollback + writer restart) x writer configuration (1-2 workers, dedicated doc-store compressor thread on / off), every storage operation of the fault-free log - create, write, flush, terminate, atomic write, atomic read, open, exists, delete, directory sync, lock acquisition, on the indexing workers, the compressor thread, the segment updater, merge threads and the caller - is made to fail once and permanently from there on, and after the first reported error the driver continues with rollback, with a new writer, or with the same writer: no panic, abort or hang; every commit returning Ok is complete, readable and checksum-clean in a fresh open; after an error the storage holds the last Ok commit or a failed commit's complete state; finally a new writer adds, commits and collects and the directory holds exactly the committed files.",
-     note="Single faults (once / permanent) only; faults are injected at the Directory trait seam of SimDirectory, whose durability / lock model is bound to MmapDirectory by C01's conformance pass; targets are identified by (logical thread, per-thread operation index) of the fault-free run.",
+     text="For each workload (quick: add + commit, add + delete + commit; thorough: + merge + GC, reader reloads, rollback + writer restart) x writer configuration (1-2 workers, dedicated doc-store compressor thread on / off), every storage operation of the fault-free log - create, write, flush, terminate, atomic write, atomic read, open, exists, delete, directory sync, lock acquisition, on the indexing workers, the compressor thread, the segment updater, merge threads and the caller - is made to fail once and permanently from there on, and after the first reported error the driver continues with rollback, with a new writer, or with the same writer: no panic, abort or hang; every commit returning Ok is complete, readable and checksum-clean in a fresh open; after an error the storage holds the last Ok commit or a failed commit's complete state; finally a new writer adds, commits and collects and the directory holds exactly the committed files; a reload that returns Ok hands out a searcher that shows a whole commit and can be queried. Two-deviation family (E-PREEMPT + fault): a merge of two committed segments is preempted at 2 (thorough 5) positions of its merge thread by delete commits, then every storage operation of the updater reconciling and publishing the merge fails once: the published documents stay those of the last commit.",
+     note="Single faults (once / permanent), plus one family with a preemption and a fault; an error reported by a commit after its commit point (failed directory sync after meta.json was replaced) leaves that commit's complete state on storage, which is admissible, and the reference continues from what the storage holds; faults are injected at the Directory trait seam of SimDirectory, whose durability / lock model is bound to MmapDirectory by C01's conformance pass; targets are identified by (logical thread, per-thread operation index) of the fault-free run.",
      design_ref="3/C11")
 
 prop("C01", claimed=True, level="fault_enumeration", engine="E-CRASH (SimDirectory operation logs, isolated workers)",
